@@ -129,6 +129,17 @@ def _guarded_by_isinstance(ctx, f, node, other_name, cls_names):
     return None
 
 
+def _canon3(o, l, r):
+    """One spelling per comparison: a > b == b < a; == / != are symmetric."""
+    if o is ast.Gt:
+        return (ast.Lt, r, l)
+    if o is ast.GtE:
+        return (ast.LtE, r, l)
+    if o in (ast.Eq, ast.NotEq) and r < l:
+        return (o, r, l)
+    return (o, l, r)
+
+
 def slots(ctx, cname, own, rule):
     ci = ctx.prog.cls(cname)
     n = 0
@@ -170,7 +181,8 @@ def slots(ctx, cname, own, rule):
             want = {(want_op, other, me)}
         else:
             want = {(want_op, me, boxed_other), (want_op, me, other)}
-        got = {(o, l, r) for o, l, r, _ in ops}
+        got = {_canon3(o, l, r) for o, l, r, _ in ops}
+        want = {_canon3(*w) for w in want}
         if got != want:
             wrong = sorted("%s %s %s" % (l, SYM.get(o, "?"), r) for o, l, r in got - want)
             missing = sorted("%s %s %s" % (l, SYM.get(o, "?"), r) for o, l, r in want - got)
